@@ -887,6 +887,26 @@ class ISMAGS:
         if all(len(top) == 1 for top in top_partitions):
             # All nodes are mapped
             permutations = self._find_permutations(top_partitions, bottom_partitions)
+            # The coupling of the top and bottom partitions only describes a
+            # symmetry if it maps every edge on an edge of the same color.
+            # Cells are coupled by position, so an ordering of equally sized
+            # cells can couple cells that are not equivalent.
+            coupling = {next(iter(top)): next(iter(bottom))
+                        for top, bottom in zip(top_partitions, bottom_partitions)}
+            for node1, node2 in graph.edges:
+                image = coupling[node1], coupling[node2]
+                if image in edge_colors:
+                    image_color = edge_colors[image]
+                elif image[::-1] in edge_colors:
+                    image_color = edge_colors[image[::-1]]
+                else:
+                    return [], cosets
+                if (node1, node2) in edge_colors:
+                    color = edge_colors[node1, node2]
+                else:
+                    color = edge_colors[node2, node1]
+                if color != image_color:
+                    return [], cosets
             self._update_orbits(orbits, permutations)
             if permutations:
                 return [permutations], cosets
